@@ -85,9 +85,12 @@ SameOrder(s, t) == \A k \in 1..Len(s.words) : k <= Len(t.words) => s.words[k].w 
 SamePlace(s, t) == \A k \in 1..Len(s.words) : k <= Len(t.words) => Coarse(s.words[k]) = Coarse(t.words[k])
 
 \* tables with at least two rows and two columns remain tables
-Rows(t, i) == {c \in Range(t.kids[i]) : t.cls[c] = "Row"}
+\* rows / cells without any content do not count (the cleaner documents the removal of empty
+\* trailing rows and cells)
+FullCells(t, r) == {c \in Range(t.kids[r]) : t.cls[c] = "Cell" /\ t.kids[c] # <<>>}
+Rows(t, i) == {r \in Range(t.kids[i]) : t.cls[r] = "Row" /\ FullCells(t, r) # {}}
 BigTable(t, i) == /\ t.cls[i] = "Table" /\ Cardinality(Rows(t, i)) >= 2
-                  /\ \E r \in Rows(t, i) : Len(t.kids[r]) >= 2
+                  /\ \E r \in Rows(t, i) : Cardinality(FullCells(t, r)) >= 2
 RECURSIVE AncBig(_, _, _), AncTable(_, _, _)
 AncBig(t, i, fuel) ==
   IF i = 0 \/ i > t.n \/ fuel = 0 THEN FALSE ELSE IF BigTable(t, i) THEN TRUE ELSE AncBig(t, t.par[i], fuel - 1)
